@@ -49,6 +49,8 @@ def flat_table(rng):
                 w = rng.randint(1, min(total, 8)); ws.append(w); total -= w
             for w in ws:
                 fields.append({'move': None, 'body': ('bits', w, 0)})
+                if w <= 3:
+                    ints.append(i)        # a flag / small counter of a bit run may size a later string
                 i += 1
             continue
         elif k < 0.6:
@@ -127,25 +129,42 @@ def run(tier, seed, rng):
     host = sys.byteorder == 'big'
     ng = 70 if tier == 'quick' else 2000
     groups, meta = [], []
-    for gid in range(ng):
-        table = flat_table(rng)
+    def add_group(gid, table, vals, nvals=2):
         G = pktcases.Group(table, gid)
-        vg = gen.ValGen(rng, table)
-        vals = [v for v in (vg.try_value(0) for _ in range(5)) if v is not None]
-        vals = [special_value(rng, table, v) if rng.random() < 0.4 else v for v in vals]
         if not vals:
             groups.append(G)
-            continue
+            return
         for v in vals:
             G.add_pack(0, v)
         names = list(range(len(table[0]['fields'])))
-        subsets = list(itertools.product([0, 1], repeat=len(names))) if len(names) <= 4 else \
+        subsets = list(itertools.product([0, 1], repeat=len(names))) if len(names) <= 5 and (len(names) <= 4 or nvals > 2) else \
             [tuple(rng.random() < 0.5 for _ in names) for _ in range(16)] + [tuple(0 for _ in names), tuple(1 for _ in names)]
-        for v in vals[:2]:
+        for v in vals[:nvals]:
             for sub in subsets:
                 pattern = {i: (v[2][i] if fixed else ANY) for i, fixed in zip(names, sub)}
                 meta.append((gid, v, pattern))
         groups.append(G)
+    for gid in range(ng):
+        table = flat_table(rng)
+        vg = gen.ValGen(rng, table)
+        vals = [v for v in (vg.try_value(0) for _ in range(5)) if v is not None]
+        vals = [special_value(rng, table, v) if rng.random() < 0.4 else v for v in vals]
+        add_group(gid, table, vals)
+    # ---- a string sized by a callable that BRANCHES on a flag (a bit field / a small integer): with the flag and the string left as Any
+    # and everything else fixed, the corpus holds candidates of BOTH branches that agree with the pattern on every fixed field
+    for variant, (how, flagbits) in enumerate([('lambda', True), ('expr', True), ('lambda', False), ('expr', False)]):
+        size = ('ite', ('bin', 'Eq', ('field', 0), ('lit', 1)), ('lit', 3), ('lit', 1))
+        if flagbits:
+            head = [{'move': None, 'body': ('bits', 1, 0)}, {'move': None, 'body': ('bits', 7, 0)}]
+        else:
+            head = [{'move': None, 'body': ('elem', ('leaf', ('int', 1, False, None, 0)))}, {'move': None, 'body': ('elem', ('leaf', ('int', 1, False, None, 0)))}]
+        fields = head + [{'move': None, 'body': ('elem', ('leaf', ('int', 1, False, None, 0)))},
+                         {'move': None, 'body': ('elem', ('leaf', ('dsized', size, how, b'')))},
+                         {'move': None, 'body': ('elem', ('leaf', ('int', 1, False, None, 0)))}]
+        table = {0: dict(end=None, align=None, sbl=None, gp=True, gu=True, vec=True, ann=True, fields=fields)}
+        vals = [('pkt', 0, {0: fl, 1: 5, 2: 7, 3: (b'xyz' if fl == 1 else b'q'), 4: 0x7f}) for fl in (0, 1)]
+        vals += [('pkt', 0, {0: fl, 1: 5, 2: 7, 3: (b'abc' if fl == 1 else b'r'), 4: 0x7f}) for fl in (1, 0)]
+        add_group(ng + variant, table, vals, nvals=4)
     # first pass: encode the values (corpus); second pass: the patterns against the corpus
     records, dis0 = pktcases.run_groups(groups, 'c18a')
     corpus = {}
